@@ -13,7 +13,10 @@ trajectory zip file as part of the state.  Every run
      model (vm_compute, one number per node);
   4. evaluates the property itself on the implementation at every node of a single-object life
      (independent of the model) - those are the findings/violations with a concrete replay;
-  5. simulated stops: after every low-level write of every operation, and for torn / truncated
+  5. the same with a finished archive of an earlier run already present under the trajectory's name
+     and the name given with / without the ".zip" suffix (nothing of the earlier archive may survive
+     open(), neither live nor after reload nor in any simulated stop);
+  6. simulated stops: after every low-level write of every operation, and for torn / truncated
      copies of the file, load() must raise a clean error or see the archive before or after the
      operation.
 """
@@ -48,6 +51,9 @@ RULE = ("bounded-exhaustive: every operation sequence over {open, add, save_opt_
         "length 5 (quick) / 7 (thorough), maxlen in {1,2,3} (maxlen=None to length 4/5), all observers evaluated after every step; thorough adds "
         "state-deduplicated breadth-first exploration to length 6 (quick) / 8 (thorough) and random sequences of length <= 30; a node is "
         "non-trivial when its operation changed the observable state or raised; distinct by (maxlen, path). "
+        "Start configurations: empty directory, or a finished archive of an earlier run (other items and parameters) "
+        "already present under the trajectory's name, with the name passed to open()/load() as 't.zip', 't' or 't.ZIP' "
+        "(trees to length 4 quick / 5-6 thorough); the model starts from that archive (Open replaces it). "
         "Simulated stops: low-level writes of every file-changing operation (all of them in the deduplicated and random "
         "streams, up to 10 evenly spaced per operation in the exhaustive stream) plus torn and truncated images at "
         "64-byte steps.")
@@ -61,6 +67,7 @@ ML_NONE = 126     # maxlen=None is run against the model with a window of 126 (>
 K_LATE = "OptimiserHistory|late-open-misindex"
 K_EMPTY = "OptimiserHistory|load-empty-keyerror"
 K_DOUBLE = "OptimiserHistory|double-close-duplicates"
+K_STALE = "OptimiserHistory|earlier-archive-survives"
 
 # error classes -> codes shared with coq/C20/Corr.v (ecode)
 E_RUNTIME, E_INDEX, E_EXISTS, E_NOTFOUND, E_VALUE, E_KEY, E_TYPE = 1, 2, 3, 4, 5, 6, 7
@@ -188,6 +195,26 @@ def obs_fs(path):
         return [122]
 
 
+def foreign_content(fs, P, saved):
+    """members of an obs_fs digit list that are not this life's (items not in P, other parameters)"""
+    if not fs or fs[0] != 15:
+        return []
+    own = {16 + t for t in P}
+    i, bad = 2, []
+    while i < len(fs):
+        if fs[i] == 13:
+            if fs[i + 2] not in own:
+                bad.append(f"coords_{fs[i + 1]}={cname(fs[i + 2])}")
+            i += 3
+        elif fs[i] == 12:
+            if saved is None or fs[i + 1] != 16 + saved:
+                bad.append(f"opt_params={pname(fs[i + 1])}")
+            i += 2
+        else:
+            i += 1
+    return bad
+
+
 def count_coords(fs):
     """number of coords_<i> members in an obs_fs digit list"""
     if not fs or fs[0] != 15:
@@ -284,19 +311,95 @@ class _IOProxy:
 _PROXY = _IOProxy()
 
 
+# --------------------------------------------------------------------------- configurations
+KEEP_FILES = ("junk.zip", "foreign.zip", "crash.zip")
+NAMES = ("t.zip", "t", "t.ZIP")      # open()/load() append ".zip" unless the name ends with it in any case
+STALE_TAGS, STALE_PARAM = (50, 51, 52), 60
+
+
+def norm_cfg(cfg):
+    """(maxlen, name given to open/load, previous archive present?)"""
+    return (cfg, "t.zip", False) if isinstance(cfg, int) else tuple(cfg)
+
+
+def cfg_rank(cfg):
+    """plain configurations first when choosing the example to report"""
+    ml, name, stale = norm_cfg(cfg)
+    return (stale, name != "t.zip", ml, name)
+
+
+def cfg_str(cfg):
+    ml, name, stale = norm_cfg(cfg)
+    return (f"maxlen={'None' if ml == ML_NONE else ml} open({name!r})"
+            + (" with a finished archive of an earlier run under that name" if stale else ""))
+
+
+def file_of(name):
+    return name if name.lower().endswith(".zip") else name + ".zip"
+
+
+_STALE = {}
+
+
+def stale_archive():
+    """a closed trajectory of an earlier life (other items, other parameters), written by the real class
+    into an empty directory.  -> dict(bytes, fs digits, load digits, coq term)"""
+    if not _STALE:
+        from autode.opt.optimisers.base import OptimiserHistory
+        for f in ("stale_tmp.zip",):
+            if os.path.exists(f):
+                os.remove(f)
+        h = OptimiserHistory(maxlen=2)
+        h.open("stale_tmp.zip")
+        h.save_opt_params({"k": STALE_PARAM})
+        for t in STALE_TAGS:
+            h.add(mk_item(t))
+        h.close()
+        fs = obs_fs("stale_tmp.zip")
+        ld = obs_load("stale_tmp.zip")[0]
+        with open("stale_tmp.zip", "rb") as f:
+            data = f.read()
+        os.remove("stale_tmp.zip")
+        members, i = [], 2
+        while i < len(fs):
+            if fs[i] == 11:
+                members.append("MHeader")
+                i += 1
+            elif fs[i] == 12:
+                members.append(f"MParams {fs[i + 1] - 16}")
+                i += 2
+            elif fs[i] == 13:
+                members.append(f"MCoords {fs[i + 1]} {fs[i + 2] - 16}")
+                i += 3
+            else:
+                raise RuntimeError(f"cannot describe the earlier archive to the model: {fs}")
+        _STALE.update({"bytes": data, "fs": fs, "ld": ld, "coq": "(Some [" + "; ".join(members) + "])"})
+    return _STALE
+
+
+def fs0_term(cfg):
+    return stale_archive()["coq"] if norm_cfg(cfg)[2] else "None"
+
+
 # --------------------------------------------------------------------------- the implementation driver
 class Impl:
     """one real OptimiserHistory with its file in the (current) scratch directory, plus the
     bookkeeping the property-level oracles need (what was accepted, when it was opened ...)."""
-    FILE = "t.zip"
-
-    def __init__(self, ml, quick=True):
+    def __init__(self, cfg, quick=True):
         from autode.opt.optimisers.base import OptimiserHistory
+        ml, name, stale = norm_cfg(cfg)
+        self.cfg = (ml, name, stale)
         self.ml = ml
         self.quick = quick
-        self.path = os.path.abspath(self.FILE)
-        if os.path.exists(self.path):
-            os.remove(self.path)
+        self.FILE = name                                   # what open() / load() are given
+        self.path = os.path.abspath(file_of(name))         # the file that must result
+        for f in os.listdir("."):
+            if f not in KEEP_FILES:
+                (shutil.rmtree if os.path.isdir(f) else os.remove)(f)
+        self.stale = None
+        if stale:                                          # a finished trajectory of an earlier life
+            self.stale = stale_archive()
+            put(self.path, self.stale["bytes"])
         self.obj = OptimiserHistory(maxlen=None if ml == ML_NONE else ml)   # None = unbounded window
         self.nadd = self.npar = 0
         self.P = []              # tags accepted by add (returned without raising)
@@ -390,9 +493,15 @@ class Impl:
         state_flat = flat_obj(s) + fs + ld + foreign
         digits = [code] + state_flat
         fails = self.oracles(op, code, pre, s, fs, ld, lds, foreign, state_flat)
+        stray = sorted(f for f in os.listdir(".") if f not in KEEP_FILES and os.path.abspath(f) != self.path)
+        if stray:
+            fails.append(("OptimiserHistory|stray-file", "stray-file",
+                          f"after {op} the directory holds {stray} besides {os.path.basename(self.path)}"))
+            for f in stray:
+                (shutil.rmtree if os.path.isdir(f) else os.remove)(f)
         if before != after:
             self.stats["writes"] += 1
-            fails += self.crash_images(before, after, snaps, ld)
+            fails += self.crash_images(before, after, snaps, ld, pre, op)
         self.prev_flat = state_flat
         changed = pre["flat"] != state_flat
         return {"cop": cop, "n": encode(digits), "fails": fails, "code": code, "exc": exc, "changed": changed}
@@ -412,8 +521,9 @@ class Impl:
         P, ml, n = self.P, self.ml, len(self.P)
         late = self.opened_at is not None and self.opened_at > ml     # an open was accepted after entries were dropped
         ncoords = count_coords(fs)
-        dbl = self.nclose >= 2 and ncoords > n                         # a repeated close wrote entries again
-        cls = K_LATE if late else (K_DOUBLE if dbl else None)
+        foreign_members = foreign_content(fs, P, self.saved) if self.opened_at is not None else None
+        dbl = self.nclose >= 2 and ncoords > n and not foreign_members  # a repeated close wrote entries again
+        cls = K_STALE if (self.stale and foreign_members) else (K_LATE if late else (K_DOUBLE if dbl else None))
         # misuse is rejected and changes nothing
         unchanged = pre["flat"] is None or pre["flat"] == state_flat
         if op == "A" and pre["closed"] and (code != E_RUNTIME or not unchanged):
@@ -461,8 +571,18 @@ class Impl:
             fail("params", f"get_opt_params gives {pname(s['params'])}, required {pname(wantp)}")
         # a stop right now (and, once closed, the reload): error or prefix
         if not have_file:
-            if ld != [E_NOTFOUND]:
+            if self.stale is None and ld != [E_NOTFOUND]:
                 fail("load-without-file", f"load of a never-opened trajectory gives {cname(ld[0])}")
+            if self.stale is not None and (fs != self.stale["fs"] or ld != self.stale["ld"]):
+                fail("earlier-archive-touched", "the archive of an earlier run was read or modified before open(): "
+                     f"members now {fs}", K_STALE)
+        if foreign_members:
+            fail("archive-content", f"after open() the archive holds {foreign_members}; this life pushed {P} and stored "
+                 f"{pname(16 + self.saved) if self.saved is not None else 'no params'}"
+                 + (" (an archive of an earlier run was present when open() was called)" if self.stale else ""),
+                 K_STALE if self.stale else cls)
+        if not have_file:
+            pass
         elif lds is None:
             if ld[0] == E_KEY and ncoords == 0:
                 fail("load", "load of a trajectory file holding no coordinates raises KeyError('coords_-1') - neither a "
@@ -479,7 +599,8 @@ class Impl:
             if not okp:
                 fail("load-prefix", f"reloading the file gives {[cname(c) for c in lds['iter'][1:-1]]} forwards, "
                      f"{[cname(c) for c in lds['rev'][1:-1]]} reversed (len {k}, {pname(lds['params'])}); pushed {P}, stored "
-                     f"{pname(16 + self.saved) if self.saved is not None else 'no params'}: not a prefix / wrong parameters", cls)
+                     f"{pname(16 + self.saved) if self.saved is not None else 'no params'}: not a prefix / wrong parameters",
+                     K_STALE if (self.stale and foreign_members) else cls)
             elif self.nclose and (k != n or lds["final"] != s["final"]
                                   or lds["penult"] != (16 + P[-2] if n >= 2 else E_INDEX)):
                 fail("roundtrip", f"closed and reloaded: len {k} vs {n}, final {cname(lds['final'])}, penultimate "
@@ -487,7 +608,7 @@ class Impl:
         return fails
 
     # ---- simulated stops inside one operation
-    def crash_images(self, before, after, snaps, ld_after):
+    def crash_images(self, before, after, snaps, ld_after, pre, op):
         """load() of every image a stop inside this operation can leave must raise a clean error or see
         the archive as it was before / as it is after the operation."""
         bb = before if before is not None else b""
@@ -500,7 +621,8 @@ class Impl:
         imgs += [("write", b) for b in inter]
         p = next((i for i, (x, y) in enumerate(zip(bb, aa)) if x != y), min(len(bb), len(aa)))
         for c in range(max(0, p - 64), len(aa) + 1, 64):
-            imgs.append(("torn", aa[:c] + bb[c:]))
+            if op != "O":           # open() removes the old file and creates a new one: nothing is overwritten in place
+                imgs.append(("torn", aa[:c] + bb[c:]))
             imgs.append(("truncated", aa[:c]))
         imgs.append(("truncated", aa[:-1]))
         allowed = [ld_after]
@@ -519,6 +641,15 @@ class Impl:
             self.stats["crash_images"] += 1
             key = f"{kind}:{exc or 'loaded'}"
             self.stats["crash_errors"][key] = self.stats["crash_errors"].get(key, 0) + 1
+            if got[0] == C_DONE and pre["opened"] and pre["single"]:
+                # the file already belonged to this life: whatever loads must be a prefix of ITS pushes
+                _, ls, _ = obs_load("crash.zip")
+                items = ls["iter"][1:-1]
+                if items != [16 + t for t in self.P[:len(items)]] or ls["iter"][-1] != C_DONE:
+                    fails.append((K_STALE if self.stale else "OptimiserHistory|stop-inside-write", "crash-image-foreign",
+                                  f"a {kind} image of the file loads as {[cname(c) for c in items]}: not a prefix of the "
+                                  f"pushed {self.P}" + (" (entries of an earlier run's archive)" if self.stale else "")))
+                    break
             if got in allowed or (len(got) == 1 and got[0] in CLEAN_LOAD_ERRORS):
                 continue
             fails.append(("OptimiserHistory|stop-inside-write", "crash-image",
@@ -634,12 +765,12 @@ def tree_term(res):
             tbl.append(n)
         idxs.append(index[n])
     pre = res["nodes"][0][1]
-    return (f"chk_tree {res['ml']} {coq_ops(pre)} {res['depth']} "
+    return (f"chk_tree {fs0_term(res['ml'])} {norm_cfg(res['ml'])[0]} {coq_ops(pre)} {res['depth']} "
             f"[{'; '.join(hex(n) for n in tbl)}]%N [{'; '.join(map(str, idxs))}]")
 
 
-def node_term(ml, cops, n):
-    return f"chk {ml} {coq_ops(cops)} {hex(n)}%N"
+def node_term(cfg, cops, n):
+    return f"chk {fs0_term(cfg)} {norm_cfg(cfg)[0]} {coq_ops(cops)} {hex(n)}%N"
 
 
 def decode(n):
@@ -680,7 +811,7 @@ class Collector:
         for key, name, what in fails:
             self.nfails += 1
             old = self.fail_first.get(key)
-            if old is None or (len(path), ml, path) < old[:3]:
+            if old is None or (len(path), cfg_rank(ml), path) < (old[0], cfg_rank(old[1]), old[2]):
                 self.fail_first[key] = (len(path), ml, path, name, what)
 
     def add_stats(self, st):
@@ -695,11 +826,13 @@ def witnesses(ctx):
     archive without coordinates, second close), replayed on the real class: none may fail now."""
     out = []
     for key, ml, path in ((K_LATE, 2, "AAAOA"), (K_LATE, 1, "AAO"), (K_EMPTY, 2, "OC"), (K_EMPTY, 2, "OPAA"),
-                          (K_EMPTY, 1, "O"), (K_DOUBLE, 2, "OAAACC"), (K_DOUBLE, 1, "AOCC")):
+                          (K_EMPTY, 1, "O"), (K_DOUBLE, 2, "OAAACC"), (K_DOUBLE, 1, "AOCC"),
+                          (K_STALE, (2, "t", True), "OPAAAAC"), (K_STALE, (1, "t.ZIP", True), "OAAC"),
+                          (K_STALE, (2, "t.zip", True), "AOAAAC")):
         im, recs = run_path(ml, path)
         fails = [f for r in recs for f in r["fails"]]
         ctx.count("former-defect-witness", (key, path), True,
-                  sample={"maxlen": ml, "ops": path, "guards": key, "fails_now": bool(fails)})
+                  sample={"config": cfg_str(ml), "ops": path, "guards": key, "fails_now": bool(fails)})
         out.append((key, ml, path, fails))
     return out
 
@@ -855,6 +988,18 @@ def run(ctx):
         for pre in itertools.product(OPS, repeat=plen):
             tasks.append((ml, "".join(pre), depths[ml] - plen, True))      # lengths plen .. depth
     tasks.append((ML_NONE, "", 4 if quick else 5, quick))                      # maxlen=None, shorter
+    # an archive of an earlier run is already present under the name, and the name is given to open()/load()
+    # with or without the ".zip" suffix, or as ".ZIP"
+    if quick:
+        stale_cfgs = [((2, "t", True), 4), ((1, "t.ZIP", True), 4), ((3, "t.zip", True), 4), ((2, "t", False), 3),
+                      ((2, "t.ZIP", False), 3)]
+    else:
+        stale_cfgs = [((ml, nm, True), 6 if (ml, nm) == (2, "t") else 5) for ml in (1, 2, 3) for nm in NAMES] + \
+                     [((ml, nm, False), 4) for ml in (1, 2, 3) for nm in NAMES[1:]]
+    for cfg, d in stale_cfgs:
+        tasks.append((cfg, "", 0, True))
+        for a in OPS:
+            tasks.append((cfg, a, d - 1, True))
     mp = get_context("fork")
     with mp.Pool(min(NPROC, 16), initializer=_worker_init, initargs=(ctx.work, REPO)) as pool:
         results = pool.map(task_subtree, tasks, chunksize=1)
@@ -869,12 +1014,12 @@ def run(ctx):
             towners.append(r)
         for r in results[5:8]:
             nd = r["nodes"][min(40, len(r["nodes"]) - 1)]
-            ctx.cov["samples"].append({"stream": "enum", "case": {"maxlen": r["ml"], "ops": nd[0], "coq_ops": coq_ops(nd[1]),
+            ctx.cov["samples"].append({"stream": "enum", "case": {"config": cfg_str(r["ml"]), "ops": nd[0], "coq_ops": coq_ops(nd[1]),
                                                                     "observation_digits": decode(nd[2])}})
         # thorough: state-deduplicated BFS deeper, and random long sequences
         bfs_depth = 6 if quick else 8
         seen, frontier = set(), []
-        for ml in (1, 2, 3):
+        for ml in (1, 2, 3, (2, "t", True)) + (() if quick else ((1, "t.ZIP", True), (3, "t", True))):
             im = Impl(ml, quick)
             _root_record(im)
             frontier.append((ml, "", [], pickle.dumps(im.snapshot()), quick))
@@ -899,6 +1044,8 @@ def run(ctx):
         seqs = []
         for i in range(nrand):
             ml = ctx.rng.choice((1, 2, 3))
+            if ctx.rng.random() < 0.5:
+                ml = (ml, ctx.rng.choice(NAMES), ctx.rng.random() < 0.6)
             ln = ctx.rng.randint(8, 30)
             w = ctx.rng.choice(("AAAAAAOPCLU", "AAAAAAAAOPC", "OAPCLU", "AAAAOAAAAPAAAC"))
             seqs.append((ml, "".join(ctx.rng.choice(w) for _ in range(ln)), quick))
@@ -960,11 +1107,12 @@ def run(ctx):
     concrete = 0
     for key, (ln, ml, path, name, what) in sorted(col.fail_first.items()):
         observed.add(key)
-        rep = {"kind": "reuse" if path == "<reuse>" else "operation-sequence", "maxlen": ml, "ops": path, "oracle": name,
+        rep = {"kind": "reuse" if path == "<reuse>" else "operation-sequence", "maxlen": norm_cfg(ml)[0],
+               "open_name": norm_cfg(ml)[1], "earlier_archive_present": norm_cfg(ml)[2], "ops": path, "oracle": name,
                "legend": "O=open A=add(next tag) P=save_opt_params C=close L=replace by load() U=clean_up",
                "observed_vs_required": what}
         before = len(ctx.violations)
-        ctx.finding(key, f"maxlen={ml} ops={path}: {what}", rep)
+        ctx.finding(key, f"{cfg_str(ml)} ops={path}: {what}", rep)
         concrete += len(ctx.violations) - before
     ctx.check_known_still_fail(observed)
     ctx.cov["oracle_failures"] = col.nfails
@@ -972,7 +1120,7 @@ def run(ctx):
     if not proofs_ok:
         ctx.proof_failure(info, found_any_input=(concrete > 0))
     if corr_bad or corr_err:
-        corr_bad.sort(key=lambda t: (t[1].endswith("*"), len(t[1]), t[0], t[1]))
+        corr_bad.sort(key=lambda t: (t[1].endswith("*"), len(t[1]), norm_cfg(t[0]), t[1]))
         first = corr_bad[0] if corr_bad else None
         rep = {"kind": "correspondence", "coq_error": corr_err}
         if first:
@@ -980,7 +1128,9 @@ def run(ctx):
             small = path
             if concrete == 0 and path and path != "garbage-image" and not path.endswith("*"):
                 small = shrink_seq(ctx, ml, path)
-            rep.update({"maxlen": ml, "ops": path, "shrunk_ops": small, "implementation_observation": decode(n),
+            rep.update({"maxlen": norm_cfg(ml)[0], "open_name": norm_cfg(ml)[1],
+                        "earlier_archive_present": norm_cfg(ml)[2], "ops": path, "shrunk_ops": small,
+                        "implementation_observation": decode(n),
                         "coq_term": node_term(ml, cops, n),
                         "others": [(m, p) for m, p, _, _ in corr_bad[1:10]]})
         if concrete == 0:
@@ -1027,7 +1177,7 @@ def replay(ctx, obj):
         print("replay: nothing to replay on the implementation:", obj.get("what"))
         os.chdir("/verif")
         return 1
-    ml = rep["maxlen"]
+    ml = (rep["maxlen"], rep.get("open_name", "t.zip"), bool(rep.get("earlier_archive_present", False)))
     im, recs = run_path(ml, path.rstrip("*"), quick=False)
     n = 0
     for op, r in zip(path, recs):
@@ -1038,7 +1188,7 @@ def replay(ctx, obj):
                 continue
             n += 1
             print(f"     FAIL {key}: {what}")
-    print(f"replay: maxlen={ml} ops={path}: {n} oracle failures; stored: {obj.get('what')}")
+    print(f"replay: {cfg_str(ml)} ops={path}: {n} oracle failures; stored: {obj.get('what')}")
     if rep.get("kind") == "correspondence":
         r = task_sequence((ml, path.rstrip("*"), False))
         terms = [node_term(ml, nd[1], nd[2]) for nd in r["nodes"]]
@@ -1065,7 +1215,8 @@ MANIFEST = {
                    "and parameters (also for an empty trajectory and after repeated close); add after close / second open "
                    "/ open after entries were dropped / second parameter store / foreign file are rejected without "
                    "changing anything; each operation is at most one archive commit, and after a stop following any number "
-                   "of operations load raises a documented error or returns a prefix of what was pushed."),
+                   "of operations load raises a documented error or returns a prefix of what was pushed; an archive left "
+                   "by an earlier run under the same name is untouched before open() and entirely replaced by it."),
     "level_note": ("Trusted: Coq kernel; the hand model (tied on every run by running every operation sequence up to length "
                    "5 (thorough 7) and state-deduplicated to 6/8 on the real class and comparing every observable after every step with "
                    "the model under vm_compute); the atomic-or-unreadable assumption for one ZipFile session (probed after "
